@@ -1,45 +1,65 @@
 /-
-C18 helper lemmas, part 6: `SparseMatrixCSR::apply` (hence `LAFEM::Transfer::prol/rest/trunc`) is the product with
-the dense meaning of the stored matrix.
+C18 helper lemmas, part 6: the CSR level.  `rest = prol.transpose()` is C02's loop-faithful counting-sort model, the
+products of `LAFEM::Transfer` are C01's `SparseMatrixCSR::apply` model; both are imported read-only and combined here.
 -/
 import FeatModel.Lemmas.C18_basic
-open FeatModel.GT Finset
+import FeatModel.Lemmas.C02Transpose
+import FeatModel.Props.C01
+open FeatModel.GT FeatModel.LA Finset
 
 namespace C18L
 
-theorem row_dot (cols : Nat) (row : List (Nat × Rat)) (x : List Rat) (hc : ∀ e ∈ row, e.1 < cols) :
-    (row.map fun (e : Nat × Rat) => e.2 * x.getD e.1 0).sum
-      = ∑ j ∈ range cols, (row.filterMap fun (e : Nat × Rat) => if e.1 = j then some e.2 else none).sum * x.getD j 0 := by
-  induction row with
-  | nil => simp
-  | cons e row ih =>
-    rw [List.map_cons, List.sum_cons, ih (fun e' he' => hc e' (by simp [he']))]
-    have he : e.1 < cols := hc e (by simp)
-    have : ∀ j ∈ range cols,
-        ((e :: row).filterMap fun (e : Nat × Rat) => if e.1 = j then some e.2 else none).sum * x.getD j 0
-        = (if e.1 = j then e.2 else 0) * x.getD j 0
-          + (row.filterMap fun (e : Nat × Rat) => if e.1 = j then some e.2 else none).sum * x.getD j 0 := by
-      intro j _
-      rw [List.filterMap_cons]
-      split_ifs with h <;> simp [h] <;> ring
-    rw [Finset.sum_congr rfl this, Finset.sum_add_distrib]
-    congr 1
-    rw [Finset.sum_eq_single e.1]
-    · simp
-    · intro j _ hj; rw [if_neg (Ne.symm hj)]; ring
-    · intro hn; exact absurd (Finset.mem_range.2 he) hn
+/-- `apply(r, x)` of a matrix with a valid layout (possibly the container without arrays): never aborts on matching
+sizes and returns `A x` in terms of the dense meaning `entry` -/
+theorem apply_valid_spec (A : Csr Rat) (hA : A.valid = true) (x r : Array Rat) (hr : r.size = A.rows)
+    (hx : x.size = A.cols) :
+    ∃ r', A.applyQ x r false = some r' ∧ r'.size = A.rows ∧
+      ∀ i, i < A.rows → r'.getD i 0 = ∑ j ∈ range A.cols, A.entry i j * x.getD j 0 := by
+  rcases C02L.valid_cases hA with hless | hv
+  · have h0 : A.usedElements = 0 := C02L.arrayless_usedElements hless
+    refine ⟨Array.replicate r.size 0, by simp [Csr.applyQ, Csr.apply, hr, hx, h0], by simp [hr], ?_⟩
+    intro i hi
+    have : (Array.replicate r.size (0 : Rat)).getD i 0 = 0 := by simp [Array.getD]
+    rw [this]
+    symm
+    apply Finset.sum_eq_zero
+    intro j _
+    rw [C02L.arrayless_entry hless]; ring
+  · exact C01.csr_apply_spec (tinyRat epsQ) C01.tinyRat_zero_one.1 A (C02L.V_to hv).1 x r hr hx
 
-/-- `(A x)_i = Σ_j ⟦A⟧_ij x_j` for every row whose column indices are in range (duplicates add) -/
-theorem csr_apply_dense (m : Csr) (x : List Rat) {i : Nat} (hi : i < m.rows) (hc : ∀ e ∈ m.row i, e.1 < m.cols) :
-    (m.apply x).getD i 0 = ∑ j ∈ range m.cols, m.dense i j * x.getD j 0 := by
-  unfold Csr.apply
-  rw [getD_vtab _ hi, lsum_eq]
-  have := row_dot m.cols (m.row i) x hc
-  rw [show (List.map (fun (x_1 : Nat × Rat) => match x_1 with | (c, v) => v * x.getD c 0) (m.row i))
-      = (m.row i).map fun (e : Nat × Rat) => e.2 * x.getD e.1 0 from rfl, this]
-  apply Finset.sum_congr rfl
-  intro j _
-  unfold Csr.dense
-  rw [lsum_eq]
+/-- `rest = prol.transpose()`: swapped dimensions, valid layout, `R(j,i) = P(i,j)` — at array level -/
+theorem rest_spec (P T : Csr Rat) (hP : P.valid = true) :
+    (Transfer.ofProl P T).rest.rows = P.cols ∧ (Transfer.ofProl P T).rest.cols = P.rows ∧
+    (Transfer.ofProl P T).rest.valid = true ∧
+    ∀ i j, i < P.rows → j < P.cols → (Transfer.ofProl P T).rest.entry j i = P.entry i j :=
+  C02L.transpose_spec P hP
+
+/-- `Transfer::prol / rest / trunc` = products with `P`, `Pᵀ`, `T` -/
+theorem transfer_products (P T : Csr Rat) (hP : P.valid = true) (hT : T.valid = true)
+    (hTr : T.rows = P.cols) (hTc : T.cols = P.rows)
+    (xc vf0 yf vc0 : Array Rat) (hxc : xc.size = P.cols) (hvf : vf0.size = P.rows) (hyf : yf.size = P.rows)
+    (hvc : vc0.size = P.cols) :
+    (∃ xp, (Transfer.ofProl P T).applyProl vf0 xc = some xp ∧
+        ∀ i, i < P.rows → xp.getD i 0 = ∑ j ∈ range P.cols, P.entry i j * xc.getD j 0) ∧
+    (∃ xr, (Transfer.ofProl P T).applyRest yf vc0 = some xr ∧
+        ∀ j, j < P.cols → xr.getD j 0 = ∑ i ∈ range P.rows, P.entry i j * yf.getD i 0) ∧
+    (∃ xt, (Transfer.ofProl P T).applyTrunc yf vc0 = some xt ∧
+        ∀ j, j < P.cols → xt.getD j 0 = ∑ i ∈ range P.rows, T.entry j i * yf.getD i 0) := by
+  obtain ⟨hr1, hr2, hr3, hr4⟩ := rest_spec P T hP
+  refine ⟨?_, ?_, ?_⟩
+  · obtain ⟨r', h1, _, h3⟩ := apply_valid_spec P hP xc vf0 hvf hxc
+    exact ⟨r', h1, h3⟩
+  · obtain ⟨r', h1, _, h3⟩ := apply_valid_spec (Transfer.ofProl P T).rest hr3 yf vc0 (by rw [hr1]; exact hvc)
+      (by rw [hr2]; exact hyf)
+    refine ⟨r', h1, ?_⟩
+    intro j hj
+    rw [h3 j (by rw [hr1]; exact hj), hr2]
+    apply Finset.sum_congr rfl
+    intro i hi
+    rw [hr4 i j (Finset.mem_range.1 hi) hj]
+  · obtain ⟨r', h1, _, h3⟩ := apply_valid_spec T hT yf vc0 (by rw [hTr]; exact hvc) (by rw [hTc]; exact hyf)
+    refine ⟨r', h1, ?_⟩
+    intro j hj
+    rw [h3 j (by rw [hTr]; exact hj), hTc]
 
 end C18L
